@@ -311,25 +311,36 @@ func c12R2(c *Ctx, r *Report) {
 				return
 			}
 			mk, ok := arg.(*ssa.MakeSlice)
+			okPrefix, okCopy := false, false
+			var frameDone ssa.Instruction = call // the prefix has to be written before this
+			if ap, isAp := arg.(*ssa.Call); !ok && isAp && calleeNameSSA(&ap.Call) == "builtin.append" && len(ap.Call.Args) == 2 && ap.Call.Args[1] == m {
+				// the frame is a fresh two-octet prefix with the message appended to it
+				if mk2, isMk := ap.Call.Args[0].(*ssa.MakeSlice); isMk {
+					if k, isK := constIntOf(mk2.Len); isK && k == 2 {
+						mk, ok, okCopy, frameDone = mk2, true, true, ap
+					}
+				}
+			}
 			if !ok {
 				problems = append(problems, fmt.Sprintf("%s: writes %v, neither the message nor a freshly framed copy", c.pos(call.Pos()), arg))
 				return
 			}
 			nStream++
 			// length 2+len(m)
-			base, k := offsetOf(mk.Len)
-			lc, isLen := base.(*ssa.Call)
-			if !isLen || calleeNameSSA(&lc.Call) != "builtin.len" || lc.Call.Args[0] != m || k != 2 {
-				problems = append(problems, fmt.Sprintf("%s: the frame is %v octets long, want 2+len(message)", c.pos(mk.Pos()), mk.Len))
+			if !okCopy {
+				base, k := offsetOf(mk.Len)
+				lc, isLen := base.(*ssa.Call)
+				if !isLen || calleeNameSSA(&lc.Call) != "builtin.len" || lc.Call.Args[0] != m || k != 2 {
+					problems = append(problems, fmt.Sprintf("%s: the frame is %v octets long, want 2+len(message)", c.pos(mk.Pos()), mk.Len))
+				}
 			}
-			okPrefix, okCopy := false, false
 			for _, a := range byteAccesses(fn) {
 				if a.Write && a.Buf == mk && a.Base == nil && a.K == 0 && a.N == 2 {
 					v := a.Val
 					if cv, ok := v.(*ssa.Convert); ok {
 						v = cv.X
 					}
-					if l2, ok := v.(*ssa.Call); ok && calleeNameSSA(&l2.Call) == "builtin.len" && l2.Call.Args[0] == m && precedes(a.Instr, call) {
+					if l2, ok := v.(*ssa.Call); ok && calleeNameSSA(&l2.Call) == "builtin.len" && l2.Call.Args[0] == m && precedes(a.Instr, frameDone) {
 						okPrefix = true
 					}
 				}
@@ -566,12 +577,31 @@ func c12R4(c *Ctx, r *Report) {
 	r.fn("Server.serveDNS")
 	m := paramOf(fn, "m")
 	n := 0
+	// a release: Put(m[...]) itself, or a helper of the package that is handed m and puts that parameter back
+	releases := func(call *ssa.Call) bool {
+		if calleeNameSSA(&call.Call) == "(sync.Pool).Put" {
+			return anyIn(sliceOf(call.Call.Args[1]), isValue(m))
+		}
+		g := call.Call.StaticCallee()
+		if g == nil || g.Pkg != fn.Pkg || len(g.Blocks) == 0 {
+			return false
+		}
+		for i, a := range call.Call.Args {
+			if a != m || i >= len(g.Params) {
+				continue
+			}
+			p := g.Params[i]
+			for _, ci := range callsIn(g, "(sync.Pool).Put") {
+				if anyIn(sliceOf(ci.Common().Args[1]), isValue(p)) {
+					return true
+				}
+			}
+		}
+		return false
+	}
 	allInstrs(fn, func(in ssa.Instruction) {
 		call, ok := in.(*ssa.Call)
-		if !ok || calleeNameSSA(&call.Call) != "(sync.Pool).Put" {
-			return
-		}
-		if !anyIn(sliceOf(call.Call.Args[1]), isValue(m)) {
+		if !ok || !releases(call) {
 			return
 		}
 		n++
@@ -666,14 +696,11 @@ func c12R4(c *Ctx, r *Report) {
 		r.check(len(problems) == 0, "C12.R5.fresh-writer", name, c.pos(f.Pos()), "new(response) per call", "%s", strings.Join(problems, "; "))
 	}
 	// what goes back into the buffer pool has the pool's element size: a short slice would be handed to a later read
-	r.rule("C12.R4.pool-put-size", 4, "every buffer returned to the UDP pool is re-sliced to srv.UDPSize (or is the untouched buffer just taken from it), unless every Get compares the length with srv.UDPSize")
+	r.rule("C12.R4.pool-put-size", 2, "every buffer returned to the UDP pool is re-sliced to srv.UDPSize (or is the untouched buffer just taken from it), unless every Get compares the length with srv.UDPSize")
 	nPut := 0
 	getsGuarded := poolGetsGuarded(c)
-	for _, name := range []string{"Server.serveUDP", "Server.serveDNS", "Server.readUDP", "Server.readPacketConn", "Server.serveUDPPacket"} {
-		f := c.ssaFunc(name)
-		if f == nil {
-			continue
-		}
+	for _, f := range c.allFuncs() {
+		name := fnDisplay(f)
 		for _, ci := range callsIn(f, "(sync.Pool).Put") {
 			if !anyIn(sliceOf(ci.Common().Args[0]), readsField("Server", "udpPool")) {
 				continue
